@@ -549,8 +549,50 @@ func c20MetricsRegister(c *Check, P string) {
 	c.Floor(P+".O3", "metrics builder function calling Registerer.Register", n, 1)
 }
 
+// c20MethodValueSnapshots: `d.method` with a value receiver copies *d at the
+// moment the method value is made; fields of d assigned afterwards (the
+// registered collectors) are missing from the copy the callback works on.
+func c20MethodValueSnapshots(c *Check, P string) {
+	n := 0
+	for _, fn := range c.P.SrcFuncs(metricsRel) {
+		AllInstrs(fn, func(in ssa.Instruction) {
+			mc, ok := in.(*ssa.MakeClosure)
+			if !ok || len(mc.Bindings) != 1 {
+				return
+			}
+			wf, _ := mc.Fn.(*ssa.Function)
+			if wf == nil || wf.Synthetic == "" {
+				return
+			}
+			ld, isLoad := mc.Bindings[0].(*ssa.UnOp)
+			if !isLoad || ld.Op != token.MUL {
+				return
+			}
+			al, isAlloc := ld.X.(*ssa.Alloc)
+			if !isAlloc {
+				return
+			}
+			n++
+			after := ReachAfter(ld, nil)
+			okSnap := true
+			var wit []string
+			AllInstrs(fn, func(in2 ssa.Instruction) {
+				if st, isSt := in2.(*ssa.Store); isSt && after[in2] {
+					if f, base := FieldOf(st.Addr); f != nil && base == ssa.Value(al) && !f.Embedded() {
+						okSnap = false
+						wit = append(wit, "field "+f.Name()+" is assigned at "+c.P.Pos(st.Pos())+", after the copy was taken")
+					}
+				}
+			})
+			c.Report(okSnap, P+".O3", "METHOD-VALUE-AFTER-INIT", fn, mc.Pos(), "method value with a value receiver", "the decorator's callback is bound to a copy of the decorator taken when all its collectors are already registered (a copy taken earlier has nil collectors: the first observation panics)", wit...)
+		})
+	}
+	c.Floor(P+".O3", "method values bound to a copy of a local decorator value in package metrics", n, 1)
+}
+
 func c20Metrics(c *Check, P string) {
 	c20MetricsRegister(c, P)
+	c20MethodValueSnapshots(c, P)
 	// context marks
 	type mark struct{ set, get string }
 	keys := map[string]string{}
